@@ -198,12 +198,12 @@ def run_worker(cases, tag="impl", timeout=900):
             for i, x in zip(idxs, rr["result"]["results"]):
                 out[i] = x
             continue
-        singles = cm.run_impl_parallel(PID, "c12", [dict(cases=[c]) for c in ch], timeout=300, tag=tag + f"_iso{w}_")
+        singles = cm.run_impl_parallel(PID, "c12", [dict(cases=[c]) for c in ch], timeout=900, tag=tag + f"_iso{w}_")
         for i, sgl, c in zip(idxs, singles, ch):
             if sgl["status"] == "ok":
                 out[i] = sgl["result"]["results"][0]
                 continue
-            per_op = cm.run_impl_parallel(PID, "c12", [dict(cases=[dict(c, ops=[o])]) for o in c["ops"]], timeout=120,
+            per_op = cm.run_impl_parallel(PID, "c12", [dict(cases=[dict(c, ops=[o])]) for o in c["ops"]], timeout=400,
                                           tag=tag + f"_op{w}_")
             out[i] = []
             for o, po in zip(c["ops"], per_op):
@@ -666,7 +666,8 @@ def run(tier, seed, replay=None):
         "shape of the rounded pose (orthonormal to ~1e-16)",
     ]
     if (cm.COQ / "theories" / "Props" / "C12.v").exists():
-        R.check_proofs([f for f in PROOF_FILES if (cm.COQ / f).exists()])
+        R.check_proofs([f for f in PROOF_FILES if (cm.COQ / f).exists()],
+                       build_targets=["theories/Props/C12.vo", "theories/Checker/Shapes.vo"])
     else:
         R.proof_broken.append("Props/C12.v missing")
 
